@@ -422,3 +422,19 @@ Definition supported_method (m : str) : bool :=
   str_eqb m M_DELETE || str_eqb m M_GET || str_eqb m M_POST || str_eqb m M_PUT.
 
 Definition no_nl (s : str) : Prop := ~ In NL s.
+
+(* the documented rule once more, as inference rules (proved equivalent to [spec] on the
+   documented grammar): [matches pieces segments values] *)
+Inductive matches : list piece -> list str -> list (option str) -> Prop :=
+  | M_end : matches [] [] []
+  | M_end_slash : matches [] [[]] []                                   (* one trailing slash *)
+  | M_lit l ps segs vals :
+      matches ps segs vals -> matches (PLit l :: ps) (l :: segs) vals
+  | M_one n g ps segs vals :
+      g <> [] -> matches ps segs vals -> matches (POne n :: ps) (g :: segs) (Some g :: vals)
+  | M_opt_none n : matches [POpt n] [] [None]
+  | M_opt_one n g : matches [POpt n] [g] [Some g]
+  | M_opt_one_slash n g : matches [POpt n] [g; []] [Some g]
+  | M_star_none n : matches [PStar n] [] [None]
+  | M_star n segs : segs <> [] -> matches [PStar n] segs [Some (join_sl segs)]
+  | M_plus n segs : segs <> [] -> segs <> [[]] -> matches [PPlus n] segs [Some (join_sl segs)].
